@@ -3,10 +3,13 @@
     lookup; the cache-hit guard [sanitize_data.is_ok() && GET|HEAD]; on a hit the [If-Modified-Since]
     test that builds an empty 304; the miss path [get_response] -> handler or
     [sanitize_error_into_response]; [maybe_cache], GET|HEAD only) and
-    [SendKind::send] (range applied to the CONTENT-ENCODED body that [clone_preferred] chose — not to
-    a 304 —, the 416 short-circuit, [ensure_length] after slicing, no body for HEAD), and of
-    [extensions::stream_body] (a file streamed through a response-pipe future: range parsed by the
-    extension itself, [apply_to_response] skipped).
+    [SendKind::send] (no body under a 1xx / 204 / 304 head; range applied to the CONTENT-ENCODED body
+    that [clone_preferred] chose — not to a 304 —, the 416 short-circuit, [ensure_length] after slicing,
+    no body for HEAD), and of [extensions::stream_body] (a file streamed through a response-pipe future:
+    range parsed by the extension itself, [apply_to_response] skipped, the future not run for HEAD).
+    A page with vary rules has one cached item that holds a VARIANT per class of request
+    ([VariedResponse]): the If-Modified-Since test answers 304 only for a variant the item holds, a
+    request for another variant runs the handler ([handle_vary_missing]) and adds it.
     The range arithmetic itself is Model/Range.v.  Definitions only; proofs in
     Proofs/RangeConnProofs.v. *)
 From KV Require Export Bytes RustInt Range.
@@ -25,10 +28,13 @@ Definition choose (pg : page) (ae : N) : repr := nth (N.to_nat ae) pg no_repr.
 Inductive meth := GET | HEAD | POST.
 Definition get_or_head (m : meth) : bool := match m with POST => false | _ => true end.
 
-(** A request: method, Accept-Encoding class, the values of its [Range] header LINES in order, and
+(** A request: method, Accept-Encoding class, the values of its [Range] header LINES in order,
     its [If-Modified-Since] class (1 = not older than the cached response: the client's copy is
-    fresh; anything else = absent / older / unparsable). *)
-Record rreq := { rq_method : meth; rq_ae : N; rq_ranges : list bytes; rq_ims : N }.
+    fresh; anything else = absent / older / unparsable), and its class under the page's vary rules
+    ([VariedResponse::get_headers_for_request]: the transformed values of the request headers that
+    the rules name, the rule's default for an absent one; two requests are in the same class when
+    these collections are equal; 0 on a page without rules, where the collection is always empty). *)
+Record rreq := { rq_method : meth; rq_ae : N; rq_ranges : list bytes; rq_ims : N; rq_lang : N }.
 (** [request.headers().get("range")]: the HTTP/1 request parser stores each header line with
     [HeaderMap::insert] (utils/src/parse.rs), so the map holds the LAST line. *)
 Definition rq_range (q : rreq) : option bytes := hd_error (rev (rq_ranges q)).
@@ -40,23 +46,45 @@ Inductive layer4 :=
                                      freshly made), or the empty 304 *)
 | L4Error416.            (** [error::sanitize_error_into_response]; ServerCachePreference::None, never stored *)
 
+(** A cached item ([VariedResponse.responses]): the variants it holds, each with the class of the
+    request that created it and the response stored for it.  (The code keeps the vector sorted by the
+    header collections and searches it by binary search; the model keeps the order of arrival and
+    searches linearly: the same membership.  Position and order are C05's subject.) *)
+Definition item := list (N * page).
+Fixpoint get_by_request (it : item) (lang : N) : option page :=
+  match it with
+  | [] => None
+  | (l, p) :: rest => if N.eqb l lang then Some p else get_by_request rest lang
+  end.
+
 (** [handle_cache].  [cache] is the response-cache entry of this URI ([None] = absent),
     [caching] = the host has a response cache, the page's server cache preference stores it and
     [status_code_cache_filter] lets the handler's [status] in.
     [sd] is [sanitize_request]'s result (range part). *)
-Definition handle_cache_m (caching : bool) (status : N) (pg : page) (cache : option page) (q : rreq)
-    (sd : outcome (option (N * N))) : layer4 * option page :=
-  let miss := (* get_response -> handle_request; clone_preferred; maybe_cache (GET | HEAD only) *)
+Definition handle_cache_m (caching : bool) (status : N) (pg : page) (cache : option item) (q : rreq)
+    (sd : outcome (option (N * N))) : layer4 * option item :=
+  let miss := (* get_response -> handle_request; VariedResponse::new; clone_preferred; maybe_cache (GET | HEAD only) *)
     (L4Resp status (choose pg (rq_ae q)),
-     if caching && get_or_head (rq_method q) then Some pg else cache) in
+     if caching && get_or_head (rq_method q) then Some [(rq_lang q, pg)] else cache) in
   match sd with
   | Ok _ =>
       match cache with
-      | Some stored =>
+      | Some it =>
           (* "Found in cache!": guard [sanitize_data.is_ok() && matches!(method, GET | HEAD)] *)
           if get_or_head (rq_method q) then
-            if fresh q then (L4Resp 304 no_repr, cache)      (* client_request_is_fresh: Response::new(Bytes::new()), 304 *)
-            else (L4Resp status (choose stored (rq_ae q)), cache)
+            let held := get_by_request it (rq_lang q) in
+            (* client_request_is_fresh: the If-Modified-Since test && resp.get_by_request(request).is_ok()
+               — only a variant the item holds is vouched for: Response::new(Bytes::new()), 304 *)
+            if fresh q && (match held with Some _ => true | None => false end) then (L4Resp 304 no_repr, cache)
+            else
+              match held with
+              | Some stored => (L4Resp status (choose stored (rq_ae q)), cache)
+              | None =>
+                  (* handle_vary_missing: get_response (the handler runs); the new variant enters the item on
+                     the terms of a new item (get_cache: response cache, preference, status filter, GET | HEAD) *)
+                  (L4Resp status (choose pg (rq_ae q)),
+                   if caching then Some (it ++ [(rq_lang q, pg)]) else cache)
+              end
           else miss
       | None => miss
       end
@@ -87,13 +115,22 @@ Definition on_wire (m : meth) (enc : option bytes) (r : ranged) : wire :=
 Definition untouched (status : N) (body : bytes) : ranged :=
   {| r_status := status; r_content_range := None; r_accept_ranges := false; r_body := body |}.
 
-(** [SendKind::send].  [guard304 = true] is today's code (a 304 is sent as it is);
-    [guard304 = false] is kvarn 0.6.3, which applied the range to the empty body of the 304. *)
+(** 1xx, 204 and 304 responses end with the head. *)
+Definition bodyless (status : N) : bool :=
+  ((100 <=? status) && (status <=? 199)) || (status =? 204) || (status =? 304).
+Definition body_sent (status : N) (rp : repr) : bytes := if bodyless status then [] else rp_body rp.
+
+(** [SendKind::send].  [guard304 = true] is today's code (the body of a 1xx / 204 / 304 response is dropped
+    before anything else — its headers stay —, and a 304 is sent as it is);
+    [guard304 = false] is kvarn 0.6.3, which kept such a body and applied the range to the empty body of
+    the 304. *)
 Definition send_gen (guard304 checked : bool) (m : meth) (sd : outcome (option (N * N))) (l4 : layer4)
   : outcome wreply :=
   match l4 with
   | L4Error416 => Ok W416
-  | L4Resp status rp =>
+  | L4Resp status rp0 =>
+      let rp := {| rp_encoding := rp_encoding rp0;
+                   rp_body := if guard304 then body_sent status rp0 else rp_body rp0 |} in
       match sd with
       | Ok range =>
           if guard304 && N.eqb status 304 then
@@ -115,15 +152,15 @@ Definition send_m := send_gen true.
 Definition send_m_063 := send_gen false.
 
 (** One request on the connection: reply and the new cache entry. *)
-Definition rstep_gen (guard304 checked caching : bool) (status : N) (pg : page) (cache : option page) (q : rreq)
-  : outcome wreply * option page :=
+Definition rstep_gen (guard304 checked caching : bool) (status : N) (pg : page) (cache : option item) (q : rreq)
+  : outcome wreply * option item :=
   let sd := sanitize_range (rq_range q) in
   let (l4, cache') := handle_cache_m caching status pg cache q sd in
   (send_gen guard304 checked (rq_method q) sd l4, cache').
 Definition rstep := rstep_gen true.
 Definition rstep_063 := rstep_gen false.
 
-Fixpoint serve_history (checked caching : bool) (status : N) (pg : page) (cache : option page) (reqs : list rreq)
+Fixpoint serve_history (checked caching : bool) (status : N) (pg : page) (cache : option item) (reqs : list rreq)
   : outcome (list wreply) :=
   match reqs with
   | [] => Ok []
@@ -140,10 +177,11 @@ Definition reply_after (checked caching : bool) (status : N) (pg : page) (pre : 
 
 (** ---- Specification ----
     [a > b] is refused with 416 whatever else the request says.  Otherwise: when the same request
-    without Range is answered 304 (the server holds the response, the method is GET/HEAD and the
-    client's copy is fresh) there is no representation to take a range of and the answer is that 304;
-    else the answer is [range_spec] of the representation a request WITHOUT Range receives under the
-    same Accept-Encoding.  [stored] = the server holds the response of this URI. *)
+    without Range is answered 304 (the server holds the response this request selects, the method is
+    GET/HEAD and the client's copy is fresh) there is no representation to take a range of and the
+    answer is that 304; else the answer is [range_spec] of the representation a request WITHOUT Range
+    receives under the same Accept-Encoding (an empty one when the status is 1xx or 204).
+    [held] = the classes of request whose response the server holds for this URI. *)
 Definition header_range (hdr : option bytes) : option (N * N) :=
   match hdr with Some v => parse_range v | None => None end.
 Definition rejected (hdr : option bytes) : bool :=
@@ -161,30 +199,33 @@ Definition wire_of (m : meth) (enc : option bytes) (r : range_reply) : wreply :=
                w_body := match m with HEAD => [] | _ => r_body r end |}
   end.
 Definition wire_spec (status : N) (m : meth) (rp : repr) (hdr : option bytes) : wreply :=
-  wire_of m (rp_encoding rp) (range_spec_st status (header_range hdr) (rp_body rp)).
+  wire_of m (rp_encoding rp) (range_spec_st status (header_range hdr) (body_sent status rp)).
 Definition not_modified : wreply :=
   WResp {| w_status := 304; w_content_range := None; w_content_length := 0;
            w_content_encoding := None; w_accept_ranges := false; w_body := [] |}.
-Definition answers_304 (stored : bool) (q : rreq) : bool :=
-  stored && get_or_head (rq_method q) && fresh q.
-Definition reply_spec (status : N) (pg : page) (stored : bool) (q : rreq) : wreply :=
+Definition holds (held : list N) (lang : N) : bool := existsb (N.eqb lang) held.
+Definition answers_304 (held : list N) (q : rreq) : bool :=
+  holds held (rq_lang q) && get_or_head (rq_method q) && fresh q.
+Definition reply_spec (status : N) (pg : page) (held : list N) (q : rreq) : wreply :=
   if rejected (rq_range q) then W416
-  else if answers_304 stored q then not_modified
+  else if answers_304 held q then not_modified
   else wire_spec status (rq_method q) (choose pg (rq_ae q)) (rq_range q).
-(** The server holds the response after a GET/HEAD that was not refused, when the page is one that is stored. *)
-Definition stored_after (caching stored : bool) (q : rreq) : bool :=
-  stored || (caching && get_or_head (rq_method q) && negb (rejected (rq_range q))).
-Fixpoint history_spec (caching : bool) (status : N) (pg : page) (stored : bool) (reqs : list rreq) : list wreply :=
+(** The server holds the response of a class after a GET/HEAD of that class that was not refused, when the
+    page is one that is stored. *)
+Definition stored_after (caching : bool) (held : list N) (q : rreq) : list N :=
+  if caching && get_or_head (rq_method q) && negb (rejected (rq_range q)) && negb (holds held (rq_lang q))
+  then held ++ [rq_lang q] else held.
+Fixpoint history_spec (caching : bool) (status : N) (pg : page) (held : list N) (reqs : list rreq) : list wreply :=
   match reqs with
   | [] => []
-  | q :: rest => reply_spec status pg stored q :: history_spec caching status pg (stored_after caching stored q) rest
+  | q :: rest => reply_spec status pg held q :: history_spec caching status pg (stored_after caching held q) rest
   end.
-Definition is_stored (cache : option page) : bool := match cache with Some _ => true | None => false end.
+Definition held_by (cache : option item) : list N := match cache with Some it => map fst it | None => [] end.
 
 (** The property as a function of the reply that the SAME request WITHOUT any Range line receives in
     the same state ("the representation that a request without Range would receive"). *)
 Definition unranged (q : rreq) : rreq :=
-  {| rq_method := rq_method q; rq_ae := rq_ae q; rq_ranges := []; rq_ims := rq_ims q |}.
+  {| rq_method := rq_method q; rq_ae := rq_ae q; rq_ranges := []; rq_ims := rq_ims q; rq_lang := rq_lang q |}.
 Definition ranged_of (hdr : option bytes) (w : wreply) : wreply :=
   if rejected hdr then W416 else
   match w with
@@ -207,15 +248,19 @@ Definition omap {A B} (f : A -> B) (o : outcome A) : outcome B :=
 
 Definition page_fits (pg : page) : Prop :=
   Forall (fun rp => N.of_nat (length (rp_body rp)) <= u64_max) pg.
-(** The cache entry of the URI is absent or holds this page's response. *)
+(** The cache entry of the URI is absent or every variant it holds is this page's response. *)
+Definition vcache_ok (pg : page) (cache : option item) : Prop :=
+  match cache with None => True | Some it => Forall (fun v => snd v = pg) it end.
+(** The same for a page without vary rules, whose item has one variant (used by [conn_step] below). *)
 Definition cache_ok (pg : page) (cache : option page) : Prop := cache = None \/ cache = Some pg.
 
 (** ---- [extensions::stream_body]: a file sent by a response-pipe future ----
     [handle_cache] never finds such a response in the cache (a future is never stored) and
     [send] calls [apply_to_response] with [is_stream = true], which does nothing: the extension
     parses the range itself.  [fixed = true] is today's code (end clamped to the file, 416 when the
-    start is not inside the file, 206 + content-range); [fixed = false] is kvarn 0.6.3
-    (status 200, no content-range, content-length [end - start] with [end] NOT clamped, never 416).
+    start is not inside the file, 206 + content-range; [send] does not run the future for HEAD);
+    [fixed = false] is kvarn 0.6.3 (status 200, no content-range, content-length [end - start] with
+    [end] NOT clamped, never 416; the future ran for every method: the bytes followed a HEAD reply too).
     [sw_sent] is what the future writes: at most [content-length] bytes are the body of this reply. *)
 Record swire := { sw_head : wire; sw_sent : bytes }.
 Definition stream_prepare (fixed checked : bool) (file : bytes) (range : option (N * N))
@@ -241,7 +286,7 @@ Definition stream_prepare (fixed checked : bool) (file : bytes) (range : option 
               sw_sent := sent |}))).
 
 (** One request for a streamed file, as the client frames it: [content-length] bytes of body
-    (fewer were sent: the reply never completes — [None]).  GET/POST only: see C08 for HEAD. *)
+    (fewer were sent: the reply never completes — [SShort]); for HEAD the head alone. *)
 Inductive sreply := S416 | SResp (w : wire) | SShort (w : wire) (received : bytes).
 Definition stream_step (fixed checked : bool) (file : bytes) (q : rreq) : outcome sreply :=
   match sanitize_range (rq_range q) with
@@ -254,6 +299,12 @@ Definition stream_step (fixed checked : bool) (file : bytes) (q : rreq) : outcom
       | Ok None => Ok S416
       | Ok (Some sw) =>
           let h := sw_head sw in
+          if fixed && (match rq_method q with HEAD => true | _ => false end) then
+            (* SendKind::send: the future is not called, nothing follows the head *)
+            Ok (SResp {| w_status := w_status h; w_content_range := w_content_range h;
+                         w_content_length := w_content_length h; w_content_encoding := None;
+                         w_accept_ranges := false; w_body := [] |})
+          else
           if N.of_nat (length (sw_sent sw)) <? w_content_length h then Ok (SShort h (sw_sent sw))
           else Ok (SResp {| w_status := w_status h; w_content_range := w_content_range h;
                             w_content_length := w_content_length h; w_content_encoding := None;
@@ -272,7 +323,8 @@ Definition stream_spec (file : bytes) (q : rreq) : sreply :=
   | R416 => S416
   | RResp r => SResp {| w_status := r_status r; w_content_range := r_content_range r;
                         w_content_length := N.of_nat (length (r_body r)); w_content_encoding := None;
-                        w_accept_ranges := false; w_body := r_body r |}
+                        w_accept_ranges := false;
+                        w_body := match rq_method q with HEAD => [] | _ => r_body r end |}
   end.
 
 (** ---- The special case that Model/Panics.v (C02) builds on: handler status 200, one Range line at most,
@@ -280,29 +332,37 @@ Definition stream_spec (file : bytes) (q : rreq) : sreply :=
 Record creq := { q_method : meth; q_ae : N; q_range : option bytes }.
 Definition lift_creq (q : creq) : rreq :=
   {| rq_method := q_method q; rq_ae := q_ae q;
-     rq_ranges := match q_range q with Some v => [v] | None => [] end; rq_ims := 0 |}.
+     rq_ranges := match q_range q with Some v => [v] | None => [] end; rq_ims := 0; rq_lang := 0 |}.
+(** a page without vary rules: the item, when there is one, holds the single variant (class 0) *)
+Definition item_of (p : page) : item := [(0, p)].
+Definition page_of (it : item) : option page := match it with (_, p) :: _ => Some p | [] => None end.
 Definition conn_step (checked caching : bool) (pg : page) (cache : option page) (q : creq)
   : outcome wreply * option page :=
-  rstep checked caching 200 pg cache (lift_creq q).
-Definition reply_spec_200 (pg : page) (q : creq) : wreply := reply_spec 200 pg false (lift_creq q).
+  let (o, cache') := rstep checked caching 200 pg (option_map item_of cache) (lift_creq q) in
+  (o, match cache' with Some it => page_of it | None => None end).
+Definition reply_spec_200 (pg : page) (q : creq) : wreply := reply_spec 200 pg [] (lift_creq q).
 
 (** ---- small definitions used in the statements and witnesses ---- *)
 (** What the server holds after a history that started with an empty cache. *)
-Definition stored_by (caching : bool) (pre : list rreq) : bool := fold_left (stored_after caching) pre false.
+Definition stored_by (caching : bool) (pre : list rreq) : list N := fold_left (stored_after caching) pre [].
 
 Definition ex_page : page :=
   [ {| rp_encoding := Some (B "identity"); rp_body := B "0123456789" |};
     {| rp_encoding := Some (B "gzip"); rp_body := B "GZIPPEDBYTES" |} ].
 Definition ex_conditional : rreq :=
-  {| rq_method := GET; rq_ae := 0; rq_ranges := [B "bytes=0-3"]; rq_ims := 1 |}.
+  {| rq_method := GET; rq_ae := 0; rq_ranges := [B "bytes=0-3"]; rq_ims := 1; rq_lang := 0 |}.
+(** the same request for another variant of the page (vary rule: another class) *)
+Definition ex_conditional_other : rreq :=
+  {| rq_method := GET; rq_ae := 0; rq_ranges := [B "bytes=0-3"]; rq_ims := 1; rq_lang := 2 |}.
 
 Definition ex_file : bytes := B "0123456789".
-Definition ex_get (v : bytes) : rreq := {| rq_method := GET; rq_ae := 0; rq_ranges := [v]; rq_ims := 0 |}.
+Definition ex_get (v : bytes) : rreq := {| rq_method := GET; rq_ae := 0; rq_ranges := [v]; rq_ims := 0; rq_lang := 0 |}.
+Definition ex_head (v : bytes) : rreq := {| rq_method := HEAD; rq_ae := 0; rq_ranges := [v]; rq_ims := 0; rq_lang := 0 |}.
 
 (** a ranged GET for the closed interval [r] *)
 Definition range_header (r : N * N) : bytes := B "bytes=" ++ dec (fst r) ++ [c_dash] ++ dec (snd r).
-Definition get_range (ae : N) (r : N * N) : rreq :=
-  {| rq_method := GET; rq_ae := ae; rq_ranges := [range_header r]; rq_ims := 0 |}.
+Definition get_range (ae lang : N) (r : N * N) : rreq :=
+  {| rq_method := GET; rq_ae := ae; rq_ranges := [range_header r]; rq_ims := 0; rq_lang := lang |}.
 Definition wbody (w : wreply) : bytes := match w with W416 => [] | WResp w => w_body w end.
 
 (** ---- xval interface ---- *)
@@ -337,19 +397,19 @@ Definition d_rreq (x : xval) : option rreq :=
   match x with
   | XL [XN m; XN ae; h] =>
       match d_meth m, d_list d_B h with
-      | Some m, Some hs => Some {| rq_method := m; rq_ae := ae; rq_ranges := hs; rq_ims := 0 |}
+      | Some m, Some hs => Some {| rq_method := m; rq_ae := ae; rq_ranges := hs; rq_ims := 0; rq_lang := 0 |}
       | _, _ => None
       end
   | XL [XN m; XN ae; h; XN ims] =>
       match d_meth m, d_list d_B h with
-      | Some m, Some hs => Some {| rq_method := m; rq_ae := ae; rq_ranges := hs; rq_ims := ims |}
+      | Some m, Some hs => Some {| rq_method := m; rq_ae := ae; rq_ranges := hs; rq_ims := ims; rq_lang := 0 |}
       | _, _ => None
       end
-  | XL [XN m; XN ae; h; XN ims; XN _] =>
-      (* the 5th field (Accept-Language class) selects the variant of a page with a vary rule: every variant of the
-         fixture's page has the same representations, so the model does not look at it *)
+  | XL [XN m; XN ae; h; XN ims; XN lang] =>
+      (* the 5th field (Accept-Language class) selects the variant of a page with a vary rule on that header
+         (every variant of the fixture's page has the same representations) *)
       match d_meth m, d_list d_B h with
-      | Some m, Some hs => Some {| rq_method := m; rq_ae := ae; rq_ranges := hs; rq_ims := ims |}
+      | Some m, Some hs => Some {| rq_method := m; rq_ae := ae; rq_ranges := hs; rq_ims := ims; rq_lang := lang |}
       | _, _ => None
       end
   | _ => None
@@ -376,13 +436,19 @@ Definition d_conn_case (x : xval) : option conn_case :=
   | _ => None
   end.
 
+(** Only a page of kind 4 has a vary rule (on accept-language); on every other page the header selects nothing. *)
+Definition class_of (kind : N) (q : rreq) : rreq :=
+  if N.eqb kind 4 then q
+  else {| rq_method := rq_method q; rq_ae := rq_ae q; rq_ranges := rq_ranges q; rq_ims := rq_ims q; rq_lang := 0 |}.
+Definition cc_requests (c : conn_case) : list rreq := map (class_of (cc_kind c)) (cc_reqs c).
+
 Definition run_serve_history (x : xval) : xval :=
   match d_conn_case x with
   | Some c =>
       if N.eqb (cc_kind c) 2
       then x_outcome (x_list x_sreply) (stream_history true (cc_checked c) (cc_body c) (cc_reqs c))
       else x_outcome (x_list x_wreply)
-             (serve_history (cc_checked c) (cc_caching c) (cc_status c) (cc_page c) None (cc_reqs c))
+             (serve_history (cc_checked c) (cc_caching c) (cc_status c) (cc_page c) None (cc_requests c))
   | None => bad_input
   end.
 
@@ -393,7 +459,7 @@ Definition run_history_spec (x : xval) : xval :=
       if N.eqb (cc_kind c) 2
       then x_outcome (x_list x_sreply) (Ok (map (stream_spec (cc_body c)) (cc_reqs c)))
       else x_outcome (x_list x_wreply)
-             (Ok (history_spec (cc_caching c) (cc_status c) (cc_page c) false (cc_reqs c)))
+             (Ok (history_spec (cc_caching c) (cc_status c) (cc_page c) [] (cc_requests c)))
   | None => bad_input
   end.
 
@@ -405,8 +471,8 @@ Definition run_serve_history_063 (x : xval) : xval :=
       then x_outcome (x_list x_sreply) (stream_history false (cc_checked c) (cc_body c) (cc_reqs c))
       else x_outcome (x_list x_wreply)
              (fold_right (fun q acc => obind (fst (rstep_063 (cc_checked c) (cc_caching c) (cc_status c) (cc_page c)
-                                                     (Some (cc_page c)) q))
-                                         (fun w => obind acc (fun ws => Ok (w :: ws)))) (Ok []) (cc_reqs c))
+                                                     (Some [(rq_lang q, cc_page c)]) q))
+                                         (fun w => obind acc (fun ws => Ok (w :: ws)))) (Ok []) (cc_requests c))
   | None => bad_input
   end.
 
